@@ -68,6 +68,21 @@ def check_shape(t, shape, kind, maxstop, maxhide, only=None):
                                 {"engine": "E2", "module": MOD, "shape": shape, "kind": kind, "start": start,
                                  "stop": sorted(stopset), "filtered_out": sorted(hidden), "maxlevel": ml,
                                  "iterator": name, "expected": exp[name], "observed": got})
+    # maxlevel values that are numbers but not small ints: they cut like the int they equal (True == 1, 2.0 == 2), huge ints
+    # and float("inf") cut nothing
+    if only is None:
+        for start in (0, m.n - 1):
+            for mlv, eq in ((True, 1), (2.0, 2), (1.0, 1), (10 ** 30, None), (2 ** 63, None), (float("inf"), None), (False, 0)):
+                exp, _adm = m.restricted(start, frozenset(), frozenset(), eq)
+                for name, cls in its.items():
+                    got = list(cls(nodes[start], maxlevel=mlv))
+                    got = [idm.seq(g) for g in got] if name in ("groups", "zigzag") else idm.seq(got)
+                    t.c["evaluations"] += 1
+                    t.c["unusual_maxlevel_values"] += 1
+                    if got != exp[name]:
+                        t.violation("C06: %s with maxlevel=%r differs from maxlevel=%r" % (name, mlv, eq),
+                                    {"engine": "E2", "module": MOD, "shape": shape, "kind": kind, "start": start, "stop": [], "filtered_out": [],
+                                     "maxlevel": repr(mlv), "iterator": name, "expected": exp[name], "observed": got, "unusual_maxlevel": True})
     t.sample({"shape": shape, "kind": kind, "example": {"start": 0, "stop": [m.n - 1], "filtered_out": [0], "maxlevel": 2,
               "expected": m.restricted(0, frozenset([m.n - 1]), frozenset([0]), 2)[0]}}, cap=2)
 
@@ -85,6 +100,10 @@ def _tup(x):
 
 
 def replay(c):
+    if c.get("unusual_maxlevel"):
+        t = core.Tally()
+        check_shape(t, _tup(c["shape"]), c["kind"], 0, 0)
+        return [v["why"] for v in t.violations if "maxlevel=" in v["why"]]
     t = core.Tally()
     check_shape(t, _tup(c["shape"]), c["kind"], None, None,
                 only=(c["start"], sorted(c["stop"]), sorted(c["filtered_out"]), c["maxlevel"]))
@@ -126,5 +145,5 @@ def run(tier):
         "bounds": bounds,
     }
     return {"tally": t, "coverage": cov,
-            "guards": ("stop_true_for_ancestors_of_start", "positional_calls", "capacity_checks", "nontrivial", "stop_pruned_inner_node", "filter_hid_inner_node_with_visible_child", "maxlevel_cut", "iterator_reuse_checks"),
+            "guards": ("unusual_maxlevel_values", "stop_true_for_ancestors_of_start", "positional_calls", "capacity_checks", "nontrivial", "stop_pruned_inner_node", "filter_hid_inner_node_with_visible_child", "maxlevel_cut", "iterator_reuse_checks"),
             "assumptions": ["full stop x filter product up to 5 (6 thorough) nodes; beyond that subsets of bounded size"]}
